@@ -5,6 +5,7 @@ import (
 	"time"
 
 	"github.com/influxdata/influxql"
+	"verifharness/astx"
 	"verifharness/mon"
 )
 
@@ -55,15 +56,20 @@ func c10One(c *Ctx, idx int, local map[string]int64) {
 	}
 	var leaves []*tcNode
 	cond.timeLeaves(&leaves)
-	var resid influxql.Expr
-	var tr influxql.TimeRange
-	var err error
+	var resid, resid2 influxql.Expr
+	var tr, tr2 influxql.TimeRange
+	var err, err2 error
+	var before, after string
 	if p, pv, stk := mon.Try(func() {
 		e, perr := influxql.ParseExpr(text)
 		if perr != nil {
 			panic("harness: generated condition does not parse: " + perr.Error())
 		}
+		before = dumpOf(e)
 		resid, tr, err = influxql.ConditionExpr(e, valuer)
+		after = dumpOf(e)
+		// the caller's condition is split again (a cached statement planned twice)
+		resid2, tr2, err2 = influxql.ConditionExpr(e, valuer)
 	}); p {
 		d := det(fmt.Sprint(pv))
 		d["stack"] = stk
@@ -78,6 +84,15 @@ func c10One(c *Ctx, idx int, local map[string]int64) {
 		r.Violation("in-domain-condition-rejected", det(err.Error()))
 		return
 	}
+	if before != after {
+		r.Violation("split-rewrites-the-condition", det("ConditionExpr changed the condition it was given: "+astx.FirstDiff(before, after)))
+		return
+	}
+	if err2 != nil || dumpOf(resid2) != dumpOf(resid) || !tr2.Min.Equal(tr.Min) || !tr2.Max.Equal(tr.Max) {
+		r.Violation("second-split-differs", det(fmt.Sprintf("splitting the same condition again gives range [%v, %v] residual %v (err %v); the first split gave [%v, %v] residual %v", tr2.Min, tr2.Max, resid2, err2, tr.Min, tr.Max, resid)))
+		return
+	}
+	local["split-twice-equal"]++
 	overflow := false
 	for _, l := range leaves {
 		overflow = overflow || l.overflow
@@ -162,7 +177,7 @@ func c10One(c *Ctx, idx int, local map[string]int64) {
 
 func checkC10(c *Ctx) (string, bool, []string) {
 	r := c.R
-	rule := "conditions = random conjunction trees (any nesting of AND and parentheses) of 0-4 time bounds and 0-3 other sub-trees (which may contain OR); a time bound is time (any letter case) on either side of = < <= > >= against integer nanoseconds, RFC3339Nano (UTC or with offset), date, date-time, a duration, now(), now() +- d, with instants from a boundary set (epoch +-1ns, MinTime+1, MaxTime, int64 extremes); valuer nil / NowValuer in 3 zones / MultiValuer. Each condition is evaluated by the reference on every bound +-{0,1ns} and far timestamps x all tag and field combinations (16 per timestamp) and compared with in-range AND residual; the range bounds are compared exactly. Non-trivial = every condition; distinct by (text, valuer kind)."
+	rule := "conditions = random conjunction trees (any nesting of AND and parentheses) of 0-4 time bounds and 0-3 other sub-trees (which may contain OR); a time bound is time (any letter case) on either side of = < <= > >= against integer nanoseconds, RFC3339Nano (UTC or with offset), date, date-time, a duration, now(), now() +- d, with instants from a boundary set (epoch +-1ns, MinTime+1, MaxTime, int64 extremes); valuer nil / NowValuer in 3 zones / MultiValuer. Each condition is evaluated by the reference on every bound +-{0,1ns} and far timestamps x all tag and field combinations (16 per timestamp) and compared with in-range AND residual; the range bounds are compared exactly; the condition handed in must be unchanged afterwards and splitting it a second time must give the same range and residual. Non-trivial = every condition; distinct by (text, valuer kind)."
 	assume := []string{"float bounds and != on time are outside the stated domain and not generated", "now() is used only with a clock-carrying valuer"}
 	if c.Replay != nil {
 		c10One(c, replayInt(c, "idx"), map[string]int64{})
